@@ -4,6 +4,7 @@
 set -e
 cd "$(dirname "$0")"
 export CARGO_NET_OFFLINE=true
+python3 tools/gen_wiring.py
 (cd lean && lake build AsModel driver)
 for h in harness/*/; do
   if [ -f "$h/Cargo.toml" ] && [ ! -f "$h/.nobuild" ]; then
